@@ -16,6 +16,7 @@ CONSTANTS
     DropInputLandmarks = TRUE
     LastDupWins = TRUE
     LandmarkOwnStream = TRUE
+    VisitingIsPath = TRUE
 SPECIFICATION MonSpec
 INVARIANTS ExactlyOneLandmark EachAtMostOnce NothingLostOrDuplicated PrioritizedFirstInOrder ParentsAndTargetsBefore RestKeepsRelativeOrder MissingAbortsOrIsReported LandmarkStartsOwnStream PrioritizedDataBeforeLandmark NoOtherDataBefore DataAccountedFor
 CHECK_DEADLOCK FALSE
